@@ -152,6 +152,17 @@ def search(ctx):
             x0["velocity_w_p_b_%d" % k] = float(rng.uniform(-1, 1)); x0["omega_wb_b_%d" % k] = float(rng.uniform(-1, 1))
         for k in range(4): x0["omega_motor_%d" % k] = w_hover * float(rng.choice([0, 1]))
         jobs.append((x0, ["mellinger", "loglinear"][i % 2], T, sp, psi))
+    # take-off: resting on the ground (the spring of the ground model carries the weight), motors stopped, level, yawed by 3 rad
+    # towards the commanded heading, sliding slowly — the ground-contact branch of the plant is part of every start of the simulator
+    for mode in ("mellinger", "loglinear"):
+        psi = 3.0
+        x0 = {"position_op_w_0": 0.4, "position_op_w_1": -0.3, "position_op_w_2": -pd["m"] * pd["g"] / 1000.0}
+        for k, v in enumerate([np.cos(psi / 2), 0.0, 0.0, np.sin(psi / 2)]): x0["quaternion_wb_%d" % k] = float(v)
+        for k in range(3):
+            x0["velocity_w_p_b_%d" % k] = [0.3, 0.0, 0.0][k]; x0["omega_wb_b_%d" % k] = 0.0
+        for k in range(4): x0["omega_motor_%d" % k] = 0.0
+        jobs.append((x0, mode, T, [0.0, 0.0, 3.0], psi))
+    n = len(jobs)
     with mp.get_context("fork").Pool(min(16, n)) as pool:
         res = pool.map(closed_loop, jobs)
     worst = {"late_pos_err": 0.0, "late_tilt": 0.0, "late_rate": 0.0}
